@@ -438,6 +438,9 @@ func (H) Gen(prop string, seed uint64, tier string) *hx.Case {
 				}
 			} else if len(viols) > 0 {
 				o.Viol = viols[r.Intn(len(viols))]
+				if prop == "C04" && cfg.CompressUTXO && r.Chance(0.3) {
+					o.Viol = "offcurve-key" // (with compressed records such an output goes through the script compressor before a later block spends it)
+				}
 			}
 		}
 		// timestamps: usually ~10 minutes apart, sometimes equal to MTP+1, sometimes a 20-minute gap (test-net rule)
